@@ -7,7 +7,7 @@ from .common import fn_table, gen_faults, gen_tape
 
 PROP = "C07"
 JUDGE = ("C07.",)
-PROGRAMS = ["calltree", "forms"]
+PROGRAMS = ["calltree", "forms", "genctx"]
 RUNS = {"quick": 3000, "thorough": 150000}
 
 
@@ -37,6 +37,50 @@ def gen_generator_case(rng, tier):
             ops.append({"op": "gc", "tape": [], "faults": {}})
     ops.append({"op": "exit", "id": "p0"})
     return {"prog": "forms", "ops": ops}
+
+
+def gen_generator_nested(rng, tier):
+    """The outermost function is a generator that calls a captured function each time it runs
+    again, while another probe comes and goes between its steps (the generator then takes stock
+    of who is listening): the record of its call still holds every value from the calls made
+    under it, and from nothing else (the driver calls g too)."""
+    qual = rng.choice(["gen", "gen2", "gen5", "gen6"])
+    own = {"gen": "x", "gen2": "y", "gen5": "x", "gen6": "x"}[qual]
+    outer_caps = [{"var": own, "as": own}] if rng.random() < 0.6 else []
+    sel = {"levels": [{"fn": qual, "caps": outer_caps, "sibs": []},
+                      {"fn": "g", "caps": [{"var": "a", "as": "a"}], "sibs": []}],
+           "focus": None, "mode": "total"}
+    by = {"levels": [{"fn": rng.choice(["g", qual])}], "focus": {"var": "#value", "as": "v"}}
+    by["levels"][0].update({"caps": [], "sibs": []})
+    ops = [{"op": "mk", "id": "p0", "sels": [sel], "inv": "C07.records", "raw": True},
+           {"op": "tool", "fn": qual, "how": "inplace"}, {"op": "tool", "fn": "g", "how": "inplace"},
+           {"op": "enter", "id": "p0"}]
+    by_id, n_by = None, 0
+    gens = []
+    for c in range(rng.randint(1, 2)):
+        gens.append(f"g{c}")
+        ops.append({"op": "gen_new", "gen": f"g{c}", "fn": qual, "nargs": 1})
+    for _ in range(rng.randint(3, 9)):
+        r = rng.random()
+        if r < 0.3:
+            if by_id is None:
+                # (a probe is spent once it has been deactivated: every bystander is a new one)
+                by_id, n_by = f"by{n_by}", n_by + 1
+                ops.append({"op": "mk", "id": by_id, "kind": rng.choice(["probe", "probe", "overlay"]),
+                            "sels": [by], "nojudge": True})
+                ops.append({"op": "enter", "id": by_id})
+            else:
+                ops.append({"op": "exit", "id": by_id})
+                by_id = None
+        elif r < 0.45:
+            ops.append({"op": "call", "fn": "g", "nargs": 1, "tape": gen_tape(rng, 4), "faults": {}})
+        else:
+            k = rng.choice(["gen_next"] * 4 + ["gen_send", "gen_throw"])
+            ops.append({"op": k, "gen": rng.choice(gens), "tape": gen_tape(rng, 8, odd=0.5), "faults": {}})
+    for g in gens:
+        ops.append({"op": rng.choice(["gen_close", "gen_close", "gen_drop"]), "gen": g, "tape": [], "faults": {}})
+    ops.append({"op": "gc", "tape": [], "faults": {}})
+    return {"prog": "genctx", "ops": ops}
 
 
 def with_refused_activation(rng, sc):
@@ -90,6 +134,8 @@ def gen(rng, tier, quarantine=()):
 
 def _gen(rng, tier, quarantine=()):
     r = rng.random()
+    if "no-generator-outermost" not in quarantine and r < 0.08:
+        return gen_generator_nested(rng, tier)
     if "no-generator-outermost" not in quarantine and r < 0.2:
         return gen_generator_case(rng, tier)
     if "no-forced-total" not in quarantine and r < 0.45:
